@@ -38,7 +38,7 @@ type Tbl = RawTable<u16, u32>;
 pub fn meta() -> Meta {
     Meta {
         level: "model_checking",
-        rule: "explicit-state BFS over the real RawTable<u16,u32> with exact de-duplication on the hook's concrete state (slot array with FREE/TOMBSTONE/key per slot, len, free). Alphabet: insert(k) via find_or_find_insert_slot+insert_in_slot_unchecked, remove(k) via remove_entry, retain(even|<3|none|all), drain (fully consumed), drain (one element taken, then dropped), clear, clear_no_drop, reset_no_drop, reserve(0|8|20), clone (continue on the clone); into_iter (fully and partially consumed) is evaluated as a terminal operation in every state. Hash assignments: h0 all keys hash to 0; h1 hashes (k+1)<<6 differ only above the 16/32/64-slot masks; h2 cluster at the end of the array (61,62,63,63,127,127,.. = indices 13,14,15,15,.. / 29,30,31,31,.. / 61,62,63,63,..) forcing wrap-around at every table size; h3 identity. quick: 6 keys, from the empty table, to the fixed point (no unexplored state left), 4 hash assignments x 4 first-operation classes. thorough: the same, plus 7 and 8 keys from the empty table to the fixed point or to the per-group memory cap of 13 million states (then outcome state_cap_hit and counter groups_state_cap_hit_complete_to_depth_<d>: breadth-first, so every state of depth < d was expanded completely; reported, never called a fixed point), plus 14 keys depth-bounded from the seed tables holding keys 0..p (p = 0: 7 operations; p = 12, 13: 7 operations; p = 11: 6 operations; the seeds sit just below / at / above the 16->32 growth point) so that growth by insertion, shrink-back by retain and the tombstone patterns around them are enumerated, one shard per first operation. Work is partitioned by (universe, hash assignment, seed, class of the first operation); each shard is one group and de-duplicates on its own, so 'states' is the sum over groups of the states distinct within the group (different groups revisit states); outcomes fixpoint_reached / depth_bound_reached / state_cap_hit count groups. transitions = real method calls sequences (one per explored edge) = executions (every explored edge extends a trace that was executed on the real table). A transition is non-trivial when the concrete successor state differs from its predecessor. In every state: find/get/get_mut for every key of the universe vs. the BTreeSet model with a probe bound (eq calls <= len; no lookup is issued in a state without a FREE slot, which is reported instead), len/is_empty, iter/iter_mut/into_iter report every element exactly once (ExactSize len, fused), stored status = from_hash(hash), is_slot_occupied_unchecked = hook view, free counter = number of FREE slots, len + tombstones + free = slots, FREE slots >= 25 % of the slots (RATIO_N/RATIO_D 'spare slots', 'find may diverge' assertion) and len <= capacity(). Per operation: return values, retain's predicate/drop call discipline, drain yields every element exactly once, clear/clear_no_drop/drain keep slots(), reset_no_drop gives capacity 0, reserve(n) is followed by n rehash-free insertions (no stored element moves, slots() unchanged), clone has an identical dump. The library's own debug assertions are on; a panic in any call is a violation.",
+        rule: "explicit-state BFS over the real RawTable<u16,u32> with exact de-duplication on the hook's concrete state (slot array with FREE/TOMBSTONE/key per slot, len, free). Alphabet: insert(k) via find_or_find_insert_slot+insert_in_slot_unchecked, remove(k) via remove_entry, retain(even|<3|none|all), drain (fully consumed), drain (one element taken, then dropped), clear, clear_no_drop, reset_no_drop, reserve(0|8|20), clone (continue on the clone); into_iter (fully and partially consumed) is evaluated as a terminal operation in every state. Hash assignments: h0 all keys hash to 0; h1 hashes (k+1)<<6 differ only above the 16/32/64-slot masks; h2 cluster at the end of the array (61,62,63,63,127,127,.. = indices 13,14,15,15,.. / 29,30,31,31,.. / 61,62,63,63,..) forcing wrap-around at every table size; h3 identity. quick: a sliding-window configuration (16 keys with the identity hash, at most 2 stored at a time, insert/remove/reserve(0) only, to the fixed point: tombstones spread over the whole 16-slot array of a nearly empty table; states de-duplicated modulo the 16 rotations of the slot array, which the probing scheme (hash + i) & mask cannot distinguish); 6 keys, from the empty table, to the fixed point (no unexplored state left), 4 hash assignments x 4 first-operation classes. thorough: the same, plus 7 and 8 keys from the empty table to the fixed point or to the per-group memory cap of 13 million states (then outcome state_cap_hit and counter groups_state_cap_hit_complete_to_depth_<d>: breadth-first, so every state of depth < d was expanded completely; reported, never called a fixed point), plus 14 keys depth-bounded from the seed tables holding keys 0..p (p = 0: 7 operations; p = 12, 13: 7 operations; p = 11: 6 operations; the seeds sit just below / at / above the 16->32 growth point) so that growth by insertion, shrink-back by retain and the tombstone patterns around them are enumerated, one shard per first operation. Work is partitioned by (universe, hash assignment, seed, class of the first operation); each shard is one group and de-duplicates on its own, so 'states' is the sum over groups of the states distinct within the group (different groups revisit states); outcomes fixpoint_reached / depth_bound_reached / state_cap_hit count groups. transitions = real method calls sequences (one per explored edge) = executions (every explored edge extends a trace that was executed on the real table). A transition is non-trivial when the concrete successor state differs from its predecessor. In every state: find/get/get_mut for every key of the universe vs. the BTreeSet model with a probe bound (eq calls <= len; no lookup is issued in a state without a FREE slot, which is reported instead), len/is_empty, iter/iter_mut/into_iter report every element exactly once (ExactSize len, fused), stored status = from_hash(hash), is_slot_occupied_unchecked = hook view, free counter = number of FREE slots, len + tombstones + free = slots, FREE slots >= 25 % of the slots (RATIO_N/RATIO_D 'spare slots', 'find may diverge' assertion) and len <= capacity(). Per operation: return values, retain's predicate/drop call discipline, drain yields every element exactly once, clear/clear_no_drop/drain keep slots(), reset_no_drop gives capacity 0, reserve(n) is followed by n rehash-free insertions (no stored element moves, slots() unchanged), clone has an identical dump. The library's own debug assertions are on; a panic in any call is a violation.",
         assumptions: vec![
             "keys are u16 (no Drop); double drops are therefore detected only through retain's drop callback and the exactly-once checks of the iterators, not through a drop counter".into(),
             "the concrete state is read through the additive read-only hook RawTable::verif_dump (cfg(oxidd_verif)); every mutation goes through the public API".into(),
@@ -125,6 +125,9 @@ struct Cfg {
     prefill: u16,
     depth: Option<u32>,
     first: String,
+    /// `w<nkeys>` shards: only insert / remove / reserve(0), insertions disabled while this many keys
+    /// are stored (a sliding window over many keys: tombstones spread over the whole array)
+    window: Option<usize>,
 }
 
 fn alphabet(nkeys: u16) -> Vec<Op> {
@@ -217,6 +220,10 @@ pub fn shards(tier: &str) -> Vec<String> {
             }
         }
     }
+    // sliding window: 16 keys with the identity hash (one per slot of the smallest table), at most 2 keys
+    // stored at any time, insert / remove / reserve(0) only, to the fixed point: tombstones can cover
+    // the whole array while the table stays nearly empty
+    v.push("w16:h3:p0:dinf:all".into());
     // 6 keys, fixed point, every hash assignment (quick and thorough)
     for h in 0..4 {
         for f in first_classes(6, 0, false) {
@@ -248,6 +255,7 @@ fn parse_shard(s: &str) -> Cfg {
     let p: Vec<&str> = s.split(':').collect();
     assert!(p.len() == 5, "bad shard {s}");
     Cfg {
+        window: if p[0].starts_with('w') { Some(2) } else { None },
         nkeys: p[0][1..].parse().unwrap(),
         hash: p[1][1..].parse().unwrap(),
         prefill: p[2][1..].parse().unwrap(),
@@ -326,9 +334,32 @@ fn dump_into(t: &Tbl, cfg: &Cfg, d: &mut Dump) {
     d.bad_status = bad_status;
 }
 
+thread_local! {
+    /// sliding-window configuration: 16 keys, identity hash, 16 slots. The table's algorithms only use
+    /// (hash + i) & mask, so rotating the slot array by r and renaming key k to (k + r) mod 16 maps
+    /// every behaviour to a behaviour; states are de-duplicated modulo these 16 rotations.
+    static ROTSYM: std::cell::Cell<bool> = const { std::cell::Cell::new(false) };
+}
+
 impl Dump {
     /// exact canonical form of the concrete state (trailing FREE slots are implied by the slot count)
     fn canon_into(&self, v: &mut Vec<u8>) {
+        if ROTSYM.with(|c| c.get()) && self.codes.len() == 16 {
+            let rot = |r: usize| -> [u8; 16] {
+                let mut out = [C_FREE; 16];
+                for (i, &c) in self.codes.iter().enumerate() {
+                    out[(i + r) % 16] = if c >= C_KEY0 && c < C_KEY0 + 16 { C_KEY0 + ((c - C_KEY0) as usize + r) as u8 % 16 } else { c };
+                }
+                out
+            };
+            let best = (0..16).map(rot).min().unwrap();
+            v.clear();
+            v.extend_from_slice(&16u32.to_le_bytes());
+            v.extend_from_slice(&(self.len.min(0xffff) as u16).to_le_bytes());
+            v.extend_from_slice(&(self.free.min(0xffff_ffff) as u32).to_le_bytes());
+            v.extend_from_slice(&best);
+            return;
+        }
         let mut n = self.codes.len();
         while n > 0 && self.codes[n - 1] == C_FREE {
             n -= 1;
@@ -1137,7 +1168,11 @@ fn explore(ctx: &mut Ctx, cfg: &Cfg) {
         for op in first_ops(cfg) {
             s.step(ctx, &root, op);
         }
-        let all = alphabet(cfg.nkeys);
+        ROTSYM.with(|c| c.set(cfg.window.is_some() && cfg.hash == 3 && cfg.nkeys == 16));
+        let all: Vec<Op> = match cfg.window {
+            None => alphabet(cfg.nkeys),
+            Some(_) => alphabet(cfg.nkeys).into_iter().filter(|o| matches!(o, Op::Insert(_) | Op::Remove(_) | Op::Reserve(0))).collect(),
+        };
         while let Some(e) = s.frontier.pop_front() {
             if s.nodes.len() >= STATE_CAP {
                 // memory cap: stop here; every state of BFS depth < e.depth has been expanded completely
@@ -1146,6 +1181,18 @@ fn explore(ctx: &mut Ctx, cfg: &Cfg) {
                 break;
             }
             for &op in &all {
+                if let (Some(w), Op::Insert(_)) = (cfg.window, op) {
+                    if e.d.len >= w {
+                        continue;
+                    }
+                }
+                // (window mode: removals of absent keys are covered by the other configurations; one
+                //  representative per state keeps the check of the `None` answer)
+                if let (Some(_), Op::Remove(k)) = (cfg.window, op) {
+                    if !e.model.contains(&k) && k != (e.depth as u16) % cfg.nkeys {
+                        continue;
+                    }
+                }
                 s.step(ctx, &e, op);
             }
         }
